@@ -102,6 +102,7 @@ class Unit:
         for name, fml in self.pre(vc, a):
             vc.check(f'{vc.unit}:pre[{self.fn}]:{name}', fml)
         o = self.snapshot(vc, a)
+        a.o = o
         cases = list(self.exc_cases(vc, I, a, o))
         if cases:
             conds = [None] + [None if c[1] is None else SBool.of(c[1]).t for c in cases]
